@@ -71,7 +71,11 @@ def op_library():
     out += [{"op": "raw_command", "command": b"version"}, {"op": "raw_command", "command": "delete t"},
             {"op": "raw_command", "command": b"get t n", "end": b"END\r\n"}, {"op": "raw_command", "command": b"set rk 0 0 3\r\nabc"},
             {"op": "raw_command", "command": b"set rk 0 0 3\r\na\r\n"}, {"op": "raw_command", "command": b"append t 0 0 2\r\n\r\n"},
-            {"op": "raw_command", "command": b"bogus", "end": b"END\r\n"}]
+            {"op": "raw_command", "command": b"bogus", "end": b"END\r\n"},
+            # commands in which the word noreply is a key or an argument the server does not take as the option: a reply comes
+            {"op": "raw_command", "command": b"get noreply", "end": b"END\r\n"}, {"op": "raw_command", "command": b"gets t noreply", "end": b"END\r\n"},
+            {"op": "raw_command", "command": b"verbosity noreply"}, {"op": "raw_command", "command": "gat 0 noreply", "end": b"END\r\n"},
+            {"op": "raw_command", "command": b"bogus noreply"}]
     return out
 
 
